@@ -168,21 +168,11 @@ func checkC03(c *Check) {
 			c.Ob("R3", inst+": every listed payment gets "+want, ss.st.Pos(), found, "account is marked "+ss.kname+" but its payments are not marked "+want+" in the same function")
 			// both hook lists invoked on all success paths after the store
 			for _, hk := range []string{"onAccountClosed", "onPaymentClosed"} {
-				okh := true
-				n := 0
-				for _, r := range successReturns(fn) {
-					if !reachableFrom(ss.st, r) {
-						continue
-					}
-					n++
-					if !mustPassFrom(fn, ss.st, r, func(in ssa.Instruction) bool {
-						// the loop over the hook list is entered (its header evaluates len(list)); the body must call the element
-						call, ok := in.(*ssa.Call)
-						return ok && calleeFull(call) == "builtin.len" && strings.HasSuffix(Sym(call.Call.Args[0]), "hooks."+hk) && hookLoopCalls(fn, hk)
-					}) {
-						okh = false
-					}
-				}
+				okh, n := mustFollowDeep(fn, ss.st, func(in ssa.Instruction) bool {
+					// the loop over the hook list is entered (its header evaluates len(list)); the body must call the element
+					call, ok := in.(*ssa.Call)
+					return ok && calleeFull(call) == "builtin.len" && strings.HasSuffix(Sym(call.Call.Args[0]), "hooks."+hk) && hookLoopCalls(in.Parent(), hk)
+				}, 0)
 				c.Ob("R3", inst+": hook list "+hk+" invoked", ss.st.Pos(), okh && n > 0, "closing path does not invoke "+hk+" hooks on every success path (market/deployment records would not follow)")
 			}
 		}
@@ -339,11 +329,25 @@ func checkC03(c *Check) {
 		ok := true
 		for _, r := range successReturns(w) {
 			zeroKnown := boolCallFactAt(r.Block(), true, func(h *ssa.Call, _ int) bool {
-				return calleeMethod(h) == "IsZero" && Sym(h.Call.Args[0]) == "*p:"+obj.Name()+".Balance"
+				return calleeMethod(h) == "IsZero" && Sym(h.Call.Args[0]) == "*p:"+paramName(obj)+".Balance"
 			})
 			paid := okEdgeAt(r.Block(), send)
 			if !zeroKnown && !paid {
 				ok = false
+			}
+			if !zeroKnown && paid && send != nil {
+				// ... and the recorded balance is set to zero between the payout and the success return
+				zeroed := mustPassFrom(w, send, r, func(in ssa.Instruction) bool {
+					st, isS := in.(*ssa.Store)
+					if !isS || Sym(st.Addr) != "&*p:"+paramName(obj)+".Balance" {
+						return false
+					}
+					v := Sym(st.Val)
+					return strings.HasPrefix(v, "types.NewCoin(") && strings.HasSuffix(v, ", types.ZeroInt())")
+				})
+				if !zeroed {
+					ok = false
+				}
 			}
 		}
 		c.Ob("R5", typ+" withdraw helper returns success only with zero balance or after payout", w.Pos(), ok, "withdraw helper can succeed leaving a non-zero recorded balance")
